@@ -8,5 +8,16 @@ def embeddedTableSize : Nat := 8
 def defaultFirstBlockSize : Nat := 1
 def sizeTypeBits : Nat := 64
 def gtalGuard (old_size new_size : Nat) : Bool := (decide (old_size < new_size))
+def xNeed (end_index : Nat) : Bool := (decide (end_index > (8 : Nat)))
+def xSelf (start_index : Nat) : Bool := (decide (start_index ≤ (8 : Nat)))
+def altWait (segment_base_i start_index : Nat) : Bool := (decide (segment_base_i < start_index))
+def csFirst (seg_index first_block : Nat) : Bool := (decide (seg_index < first_block))
+def csOwner (index offset : Nat) : Bool := (decide (index = offset))
+def csTagEnd (table_is_embedded : Bool) (first_block : Nat) : Nat := (if table_is_embedded then (3 : Nat) else first_block)
+def csFill (i first_block : Nat) : Bool := (decide (i < first_block))
+def csMirror (i first_block : Nat) : Bool := ((decide (i < first_block)) && (decide (i < (3 : Nat))))
+def growEager (seg_index first_block : Nat) : Bool := (decide (seg_index > first_block))
+def growOwns (first_element start_idx end_idx : Nat) : Bool := ((decide (first_element ≥ start_idx)) && (decide (first_element < end_idx)))
+def gtalLong (end_segment : Nat) : Bool := (decide (end_segment ≥ (3 : Nat)))
 
 end TbbVerif.Generated.C11
